@@ -31,7 +31,8 @@ add("C05.upd_nlri","VH_c05_upd_nlri",BGP,c05,{"n":6},{"n":8},expect_reach=["ok",
 add("C05.upd_all","VH_c05_upd_all",BGP,c05,{"n":6},{"n":8},expect_reach=["ok","end"],merge=UM)
 add("C05.upd_attr_pair","VH_c05_upd_attr_pair",BGP,c05,{"n":7},{"n":8},expect_reach=["end"],merge=UM)
 for name,n in [("origin",6),("aspath",12),("nexthop",8),("med",8),("localpref",8),("atomic",5),("aggregator",12),("communities",12),("originator",8),("clusterlist",12),("mpreach",9),("mpunreach",8),("extcomm",12),("as4path",12),("as4aggr",12),("pmsi",12),("tunnelencap",10),("ip6extcomm",24),("aigp",14),("ls",10),("largecomm",16),("prefixsid",10),("unknown",8)]:
-    add("C05.upd_attr_"+name,"VH_c05_upd_attr_"+name,BGP,c05,{"n":n},{"n":n+4},expect_reach=["end"],merge=UM)
+    # unwinding bound derived from the buffer: every decoder loop consumes >= 1 byte per iteration of a (8+n)-byte buffer
+    add("C05.upd_attr_"+name,"VH_c05_upd_attr_"+name,BGP,c05,{"params":{"n":n},"unwind":n+12},{"params":{"n":n+4},"unwind":n+16},expect_reach=["end"],merge=UM)
 
 exec(open('/verif/tools/genindex_more.py').read()) if __import__('os').path.exists('/verif/tools/genindex_more.py') else None
 ix={"defaults":{"quick":{"unwind":80,"paths":50000,"query_ms":20000,"harness_s":150},"thorough":{"unwind":200,"paths":500000,"query_ms":60000,"harness_s":1200}},"harnesses":H}
